@@ -370,23 +370,25 @@ bootstrap at the target level. non-trivial = the history edited at least one bui
             // ---------- random user content
             let ct = duration_from_epoch_now();
             let mut w = rt.block_on(qs.write(ct)).expect("write");
-            let collide_here = (probe && hid == 1) || (!probe && kind < 8 && rng.chance(1, 4));
-            let collide_kind = rng.below(5); // person, group, service, oauth2, recycled group
+            let forced = !probe && hid == 2; // every run contains one definite collision (a live group)
+            let collide_here = (probe && hid == 1) || forced || (!probe && kind < 8 && rng.chance(1, 4));
+            let collide_kind = if forced { 1 } else { rng.below(5) }; // person, group, service, oauth2, recycled group
             let mut names_used: BTreeSet<String> = BTreeSet::new();
-            let mut fresh_name = |rng: &mut Rng, pfx: &str, want_collide: bool| -> String {
+            let mut fresh_name = |rng: &mut Rng, pfx: &str, want_collide: bool| -> (String, bool) {
                 if want_collide && !new_names.is_empty() {
                     let n = rng.pick(&new_names).clone();
                     if names_used.insert(n.clone()) {
-                        return n;
+                        return (n, true);
                     }
                 }
                 loop {
                     let n = format!("{}{}", pfx, rng.below(40));
                     if names_used.insert(n.clone()) {
-                        return n;
+                        return (n, false);
                     }
                 }
             };
+            let mut colliders: Vec<Uuid> = vec![];
             let mut seq = 0u64;
             let mut next_uuid = || {
                 seq += 1;
@@ -396,7 +398,10 @@ bootstrap at the target level. non-trivial = the history edited at least one bui
             let np = rng.range(3, 6);
             for i in 0..np {
                 let u = next_uuid();
-                let name = fresh_name(rng, "p", collide_here && collide_kind == 0 && i == 0);
+                let (name, pooled) = fresh_name(rng, "p", collide_here && collide_kind == 0 && i == 0);
+                if pooled {
+                    colliders.push(u);
+                }
                 let e = person(u, &name, rng);
                 if e.get_ava_set(Attribute::PrimaryCredential).is_some() {
                     n_creds += 1;
@@ -411,7 +416,10 @@ bootstrap at the target level. non-trivial = the history edited at least one bui
             for i in 0..ng {
                 let u = next_uuid();
                 let is_coll = collide_here && (collide_kind == 1 || collide_kind == 4) && i == 0;
-                let name = fresh_name(rng, "g", is_coll);
+                let (name, pooled) = fresh_name(rng, "g", is_coll);
+                if pooled {
+                    colliders.push(u);
+                }
                 let mut ms = vec![];
                 for p in people.iter() {
                     if rng.chance(1, 3) {
@@ -434,14 +442,20 @@ bootstrap at the target level. non-trivial = the history edited at least one bui
             let ns = rng.below(3);
             for i in 0..ns {
                 let u = next_uuid();
-                let name = fresh_name(rng, "s", collide_here && collide_kind == 2 && i == 0);
+                let (name, pooled) = fresh_name(rng, "s", collide_here && collide_kind == 2 && i == 0);
+                if pooled {
+                    colliders.push(u);
+                }
                 w.internal_create(vec![service(u, &name)]).expect("create service");
                 users.push(UserEnt { u, kind: "service" });
             }
             let no = rng.below(3);
             for i in 0..no {
                 let u = next_uuid();
-                let name = fresh_name(rng, "o", collide_here && collide_kind == 3 && i == 0);
+                let (name, pooled) = fresh_name(rng, "o", collide_here && collide_kind == 3 && i == 0);
+                if pooled {
+                    colliders.push(u);
+                }
                 let sg = if rng.chance(1, 2) { *rng.pick(&groups) } else { UUID_IDM_ALL_ACCOUNTS };
                 w.internal_create(vec![oauth2(u, &name, sg)]).expect("create oauth2");
                 users.push(UserEnt { u, kind: "oauth2" });
@@ -534,15 +548,16 @@ bootstrap at the target level. non-trivial = the history edited at least one bui
                 dels_u.push(u);
             }
             for ue in users.iter() {
-                if rng.chance(1, 8) && Some(ue.u) != recycled_collider {
+                if rng.chance(1, 8) && Some(ue.u) != recycled_collider && !(forced && colliders.contains(&ue.u)) {
                     dels_u.push(ue.u);
                 }
             }
             for u in dels_u {
                 w.internal_delete_uuid(u).expect("delete");
+                colliders.retain(|c| *c != u);
                 n_recycled += 1;
             }
-            collide = collide_here && !(collide_kind == 4) && !new_names.is_empty();
+            collide = !colliders.is_empty();
             w.commit().expect("commit content");
             txt.push_str(&format!(
                 "users={} ({}) builtin_edits={} edges={} recycled={} creds={} collide={} ",
@@ -552,7 +567,7 @@ bootstrap at the target level. non-trivial = the history edited at least one bui
                 n_edges,
                 n_recycled,
                 n_creds,
-                if collide_here { format!("kind{}", collide_kind) } else { "no".into() }
+                if collide { format!("live-kind{}", collide_kind) } else if collide_here { format!("recycled-or-none-kind{}", collide_kind) } else { "no".into() }
             ));
         }
 
